@@ -433,6 +433,34 @@ def ekf(chk, prog):
            "P == (I - K H) P_t, P_t == F P F^T + g_noise W W^T", kalman, module=fu.module.rel, function="EKF.update", construct="Kalman correction", line=fu.node.lineno)
 
 
+def am_tilt(chk, prog):
+    """AM-TILT: the accelerometer angles the complementary filter blends towards are the roll and pitch of the measured gravity direction, exactly:
+    sin(roll) a_z == cos(roll) a_y with cos(roll) a_z + sin(roll) a_y == sqrt(a_y^2 + a_z^2), and sin(pitch) sqrt(a_y^2 + a_z^2) == -cos(pitch) a_x
+    (1-D sample and every row of the 2-D arm).  A "stabilised" approximation of either angle makes the filter settle on a biased attitude."""
+    f = prog.func(F + "complementary.py::Complementary.am_estimation")
+    chk.touch(f)
+    kw = dict(module=f.module.rel, function=f.qname, line=f.node.lineno)
+
+    def ident(ex, ey, a, tag):
+        h = P.sqrt(a[1] * a[1] + a[2] * a[2])
+        return all_of(eq(P.sin(ex) * a[2] - P.cos(ex) * a[1], P.ZERO, "roll direction [%s]" % tag), eq(P.cos(ex) * a[2] + P.sin(ex) * a[1], h, "roll branch [%s]" % tag),
+                      eq(P.sin(ey) * h + P.cos(ey) * a[0], P.ZERO, "pitch direction [%s]" % tag))
+
+    def one():
+        it = Interp(prog)
+        a = sym_vec("ca", 3)
+        r = to_obj(it.run(f, [a.copy()], self_obj=it.make_obj(F + "complementary.py::Complementary")))
+        return ident(r[0], r[1], a, "1-D")
+
+    def many():
+        it = Interp(prog)
+        A = np.vstack([sym_vec("cb", 3), sym_vec("cc", 3)])
+        r = to_obj(it.run(f, [A.copy()], self_obj=it.make_obj(F + "complementary.py::Complementary")))
+        return all_of(*[ident(r[i][0], r[i][1], A[i], "row %d" % i) for i in range(2)])
+    chk.ob("AM-TILT", f.ref + "::1-D", "roll and pitch of am_estimation(a) are the tilt angles of a", one, construct="tilt angles [1-D]", **kw)
+    chk.ob("AM-TILT", f.ref + "::2-D", "roll and pitch of every row of am_estimation(A) are the tilt angles of that row", many, construct="tilt angles [2-D]", **kw)
+
+
 def blends(chk, prog):
     # complementary filter: weights sum to one
     f = prog.func(F + "complementary.py::Complementary._compute_all")
@@ -657,6 +685,7 @@ def run(chk, prog, tier):
     mahony(chk, prog)
     ekf(chk, prog)
     blends(chk, prog)
+    am_tilt(chk, prog)
     from props.c04 import oleq
     oleq(chk, prog)
     chk.require_count("EQUILIBRIUM", 8)
